@@ -74,7 +74,7 @@ class Counting(object):
 def new_case(label, **kw):
     c = {'label': label, 'eqs': [], 'lags': [], 'exos': [], 'ics': [], 'maxtime': 3, 'tol_line': None,
          'tol_param': None, 'cap': None, 'reduction': True, 'funcs': [], 'lam': 1.0, 'contractive': False,
-         'exp': None, 'alias': None, 'fn_pred': None}
+         'exp': None, 'alias': None, 'fn_pred': None, 'retry': None}
     c.update(kw)
     return c
 
@@ -299,7 +299,13 @@ def observe(case, whole=True):
         fin['alias_obs'] = 'substituted' if gone else 'kept'
     cap = int(s.MaxIterations)
     failed = None
-    for k in range(1, horizon + 1):
+    plan = case.get('retry')
+    retried = False
+    attempt_no = 0
+    k = 0
+    while k < horizon:
+        k += 1
+        attempt_no += 1
         before = _series(s.TimeSeries)
         if use_trace:
             s.TraceStep = k
@@ -351,7 +357,7 @@ def observe(case, whole=True):
               'len_sim': cl(sim), 'len_lag': cl(lag), 'len_deco': cl(deco),
               'len_min': min(lens), 'len_max': max(lens),
               'prefix_intact': bool(prefix_intact(before, ts)),
-              'exp_n': int(case['exp'][k - 1]) if case.get('exp') and len(case['exp']) >= k else -1,
+              'exp_n': int(case['exp'][attempt_no - 1]) if case.get('exp') and len(case['exp']) >= attempt_no else -1,
               'returned': False}
         if exc is None:
             ev.update(judge_period(case, P, ts, k))
@@ -360,6 +366,18 @@ def observe(case, whole=True):
             ev['message'] = str(exc)[:120]
         events.append(ev)
         if exc is not None:
+            if plan and not retried and int(plan['k']) == k:
+                # the caller recovers: raises MaxIterations and / or loosens the tolerance, then solves the
+                # SAME period again
+                retried = True
+                if plan.get('cap') is not None:
+                    s.MaxIterations = int(plan['cap'])
+                    cap = int(plan['cap'])
+                if plan.get('tol') is not None:
+                    s.ParameterErrorTolerance = float(plan['tol'])
+                    case = dict(case, tol_param=float(plan['tol']))
+                k -= 1
+                continue
             failed = exc
             break
     fin['steps'] = len(events)
@@ -376,7 +394,7 @@ def observe(case, whole=True):
         fin['exc_type'] = type(failed).__name__
     fin['lens_ok'] = bool(failed is not None or all(len(x) == horizon + 1 for x in _series(s.TimeSeries).values()))
     fin['series'] = {v: [repr(x) for x in vals][:6] for v, vals in list(_series(s.TimeSeries).items())[:8]}
-    if whole:
+    if whole and not plan:
         # the same case through SolveEquation() itself
         try:
             s2 = _make_solver(case)
@@ -441,14 +459,29 @@ def scenario(beh, variant=('last', 'div')):
     the last period.  MaxIterations = the behaviour's Cap, so sweep counts are realised exactly."""
     H = int(beh['horizon'])
     cap = int(beh['cap'])
-    periods = beh['periods']
+    attempts = beh['periods']                 # one record per attempt (SolveStep call)
+    failing = beh['final'] != 'done'
+    # one effective record per period: the retry if it succeeded, else the (last) failing attempt
+    periods, osc_at, retry = [], [], None
+    for i, rec in enumerate(attempts):
+        if i > 0 and attempts[i - 1]['k'] == rec['k']:
+            f = attempts[i - 1]
+            retry = {'k': int(rec['k']), 'cap': int(rec['cap']),
+                     'tol': 1000.0 if (rec['big'] and not f['big']) else None}
+            if rec['exit'] == 'appended' and rec['deco'] == 'ok':
+                if f['last'] == 'notyet':
+                    osc_at.append(int(rec['k']))      # expansive in this period; solved at the loosened tolerance
+                periods[-1] = rec
+            # (a retry that fails again is realised by the same mechanism as the first attempt)
+        else:
+            periods.append(rec)
     P = len(periods)
     last = periods[-1]
-    failing = beh['final'] != 'done'
     c = new_case('tlc:' + beh['final'], maxtime=H, cap=cap, reduction=True, lam=10.0)
+    c['retry'] = retry
     eqs, lags, ics, exos = c['eqs'], c['lags'], c['ics'], c['exos']
     position, errkind = variant
-    big = bool(beh.get('big'))
+    big = bool(attempts[0]['big'])
     if big:
         # tolerance >= 1: rotated over the values and the two ways of stating it
         idx = (P * 7 + int(periods[-1]['n']) * 3 + len(beh['final'])) % 6
@@ -486,7 +519,7 @@ def scenario(beh, variant=('last', 'div')):
             d = n - 1
         else:
             d = 0
-        if big and d == 0 and (not fail_here or rec['last'] in ('converge', 'everr_le')):
+        if rec['big'] and d == 0 and (not fail_here or rec['last'] in ('converge', 'everr_le')):
             d = 1          # the single sweep has something to do (one sweep is enough at a tolerance >= 1)
         depth.append(min(d, 3))
     u, g2, g3 = [0.0], [0.0], [0.0]
@@ -515,7 +548,11 @@ def scenario(beh, variant=('last', 'div')):
         exos += [[h, [0.0 if k < p else 2.0 for k in range(H + 1)]],
                  [sname, [sigma if k < p else 0.0 for k in range(H + 1)]]]
 
-    exp = [int(r['n']) for r in periods]
+    exp = [int(r['n']) + (1 if r['last'] == 'other' else 0) for r in attempts]      # sweeps started, per attempt
+    if osc_at and not (failing and last['last'] in ('notyet', 'everr_gt')):
+        eqs.append(['o', 'a*o + 1'])
+        ics.append(['o', '1.0'])
+        exos.append(['a', path(0.0, {k: -2.0 for k in osc_at})])
     if failing:
         n = int(last['n'])
         kind, lo, deco = last['exit'], last['last'], last['deco']
@@ -533,12 +570,11 @@ def scenario(beh, variant=('last', 'div')):
                 prev = 'ce%d' % j
             eqs.append(['xe', 'exp(%s) + 0*xe' % prev])
             ics.append(['xe', '1.0'])
-            exp[-1] = n + 1               # sweeps started
         else:
             if lo in ('notyet', 'everr_gt'):
                 eqs.append(['o', 'a*o + 1'])
                 ics.append(['o', '1.0'])
-                exos.append(['a', path(0.0, {P: -2.0})])
+                exos.append(['a', path(0.0, dict([(P, -2.0)] + [(k, -2.0) for k in osc_at]))])
             if lo == 'overflow':
                 mech.append(['v', 'v*m + (m - 1)'])
                 ics.append(['v', '1.0'])
@@ -567,27 +603,50 @@ def scenario(beh, variant=('last', 'div')):
     else:
         eqs.extend(mech)
     c['exp'] = exp
-    c['label'] = 'tlc:%s:%s:%s%s:%s' % (beh['final'], position, errkind, ':bigtol' if big else '', '/'.join('%d%s%s%s' % (r['n'], 't' if r['tr'] else '', r['last'][:4],
-                                                                      r['deco'][:1]) for r in periods))
+    c['label'] = 'tlc:%s:%s:%s%s%s:%s' % (beh['final'], position, errkind, ':bigtol' if big else '',
+                                          ':retry' if retry else '',
+                                          '/'.join('%d.%d%s%s%s' % (r['k'], r['n'], 't' if r['tr'] else '', r['last'][:4],
+                                                                    r['deco'][:1]) for r in attempts))
     return c
 
 
+def _retry_ok(f, r):
+    """can the second SolveStep of a period (record r) be realised after the failed first one (record f)?"""
+    if f['tr'] or r['tr'] or f['big']:
+        return False
+    solved = r['exit'] == 'appended' and r['deco'] == 'ok' and r['last'] == 'converge'
+    if f['exit'] == 'raised_convergence' and f['last'] == 'converge' and solved:
+        return (not r['big']) and int(r['n']) == int(f['n']) and int(r['cap']) >= int(r['n'])     # the cap was raised
+    if f['exit'] == 'raised_convergence' and f['last'] == 'notyet' and solved:
+        return bool(r['big']) and int(r['n']) == 1                                              # the tolerance was loosened
+    # the same failure again
+    if r['big'] != f['big'] or r['exit'] != f['exit'] or r['last'] != f['last'] or r['deco'] != f['deco']:
+        return False
+    if f['deco'] != 'none' or f['last'] in ('other', 'everr_le', 'converge'):
+        if f['last'] == 'converge' and f['deco'] == 'none' and int(r['cap']) >= int(f['n']):
+            return False                      # with the raised cap this attempt would have been solved
+        return int(r['n']) == int(f['n'])
+    return int(r['n']) == int(r['cap']) + 1   # notyet / everr_gt / overflow: runs into the cap in force
+
+
 def scenario_realisable(beh):
-    for i, r in enumerate(beh['periods']):
+    attempts = beh['periods']
+    for r in attempts:
         if int(r['n']) > 4:
             return False
-    if beh.get('big'):
-        # at a tolerance >= 1 a relative change never exceeds the tolerance: only periods of one sweep
-        # (or sweeps whose error measure is NaN) can be realised
-        P = len(beh['periods'])
-        for i, r in enumerate(beh['periods']):
-            fail_here = beh['final'] != 'done' and i == P - 1
-            if not fail_here:
-                if int(r['n']) != 1 or r['tr']:
-                    return False
-            elif r['tr']:
+    n_att = len(attempts)
+    for i, r in enumerate(attempts):
+        retried_next = i + 1 < n_att and attempts[i + 1]['k'] == r['k']
+        is_retry = i > 0 and attempts[i - 1]['k'] == r['k']
+        if is_retry and not _retry_ok(attempts[i - 1], r):
+            return False
+        if r['big']:
+            # at a tolerance >= 1 a relative change never exceeds the tolerance: only attempts of one sweep
+            # (or sweeps whose error measure is NaN) can be realised
+            failed = r['exit'] != 'appended' or r['deco'] != 'ok'
+            if r['tr']:
                 return False
-            elif r['last'] in ('converge', 'everr_le'):
+            if not failed or r['last'] in ('converge', 'everr_le'):
                 if int(r['n']) != 1:
                     return False
             elif r['last'] == 'other':
@@ -595,6 +654,8 @@ def scenario_realisable(beh):
                     return False
             elif r['last'] not in ('overflow', 'overflow_nan'):
                 return False
+        if retried_next and r['tr']:
+            return False
     return True
 
 
@@ -986,6 +1047,9 @@ def signature(clause, case, events):
     if clause == 'C11_FailureRaises':
         f = failing_step(events)
         return 'failure-is-not-a-value-or-arithmetic-error:' + str((f or fin).get('exc_type'))
+    if case.get('retry') and clause in ('C02_DecorativeExact', 'C02_LaggedExact', 'C02_Residual') and any(
+            e['len_min'] != e['len_max'] for e in steps):
+        return 'period-recorded-partly-before-retry'
     kind = case['label'].split(':')[0]
     if kind == 'fn':
         lab = case['label'].split(':')
@@ -1008,7 +1072,9 @@ def signature(clause, case, events):
 
 def tlc_behaviours(rep, core, tier):
     """exhaustive TLC runs of the control instance; returns the distinct maximal behaviours"""
-    cfgs = ['MC_Solver_quick.cfg'] if tier == 'quick' else ['MC_Solver_quick.cfg', 'MC_Solver_thorough.cfg']
+    # MC_Solver_retry.cfg: the caller-level Retry (small alphabet, Cap 1), in both tiers
+    cfgs = ['MC_Solver_quick.cfg', 'MC_Solver_retry.cfg'] if tier == 'quick' else \
+        ['MC_Solver_quick.cfg', 'MC_Solver_retry.cfg', 'MC_Solver_thorough.cfg']
     seen = {}
     for cfg in cfgs:
         res = core.tlc('MC_Solver', cfg, workers=1, tag=rep.prop.lower())
